@@ -45,6 +45,47 @@ theorem prependSelf_ok {v : Nat} {b : Buf} (hb : BInv v b) :
     Ok b.prependSelf (fun b' => BInv v b' ∧ b'.data = b.data ++ b.data) := by
   buf_method b hb
 
+theorem rd_rd (m : List Byte) (s n off len : Nat) (h : off + len ≤ n) :
+    rd (rd m s n) off len = rd m (s + off) len := by
+  apply List.ext_getElem?
+  intro i
+  simp only [rd_get]
+  by_cases hi : i < len
+  · have : off + i < n := by omega
+    simp only [hi, this, if_true, Nat.add_assoc]
+  · simp [hi]
+
+theorem prependSub_ok {v : Nat} {b : Buf} (hb : BInv v b) (off len : Nat) (h : off + len ≤ b.e - b.s) :
+    Ok (b.prependSub off len) (fun b' => BInv v b' ∧ b'.data = rd b.data off len ++ b.data) := by
+  obtain ⟨st, s, e, cap⟩ := b
+  cases st with
+  | own m =>
+    simp only [BInv] at hb
+    simp only [] at h
+    by_cases hs : len ≤ s
+    · obtain ⟨q, rfl⟩ : ∃ q, s = q + len := ⟨s - len, by omega⟩
+      buf_wp
+      simp only [rd_rd _ _ _ _ _ h, Nat.add_sub_cancel]
+      mem_finish
+    · buf_wp
+      simp only [rd_rd _ _ _ _ _ h]
+      mem_finish
+  | att m => simp only [BInv] at hb; simp only [] at h; buf_wp; simp only [rd_rd _ _ _ _ _ h]; mem_finish
+  | dflt c => simp only [BInv] at hb; simp only [] at h; buf_wp; simp only [rd_rd _ _ _ _ _ h]; mem_finish
+theorem prependSubClamped_ok {v : Nat} {b : Buf} (hb : BInv v b) (off len : Nat) :
+    Ok (b.prependSubClamped off len) (fun b' => BInv v b' ∧ b'.data = (b.data.drop off).take len ++ b.data) := by
+  have hlen : b.data.length = b.e - b.s := by
+    obtain ⟨st, s, e, cap⟩ := b
+    cases st <;> simp only [BInv] at hb <;> simp only [Buf.data, Store.mem, rd_length] <;> grind
+  unfold Buf.prependSubClamped
+  refine (prependSub_ok hb _ _ (by split <;> split <;> omega)).mono (fun b' h => ⟨h.1, ?_⟩)
+  rw [h.2]
+  congr 1
+  apply List.ext_getElem?
+  intro i
+  simp only [rd_get, List.getElem?_take, List.getElem?_drop]
+  grind
+
 theorem resize_ok {v : Nat} {b : Buf} (hb : BInv v b) (n : Nat) :
     Ok (b.resize n) (fun b' => BInv v b' ∧ b'.data.length = n ∧
       ∀ i : Nat, i < n → i < b.data.length → b'.data[i]? = b.data[i]?) := by
